@@ -19,11 +19,14 @@ func init() {
 		ID: "C16",
 		Explanation: "Decided: (R1) every map update / delete on a version vector's map targets a map created in the same function or returned by a function proved fresh-returning (Clone, the constructors) — never the receiver's or a parameter's map — and slices handed in are copied before being sorted/truncated; (R2) the vector's writer and reader agree on the wire and validate against the same cap; " +
 			"(R3, informational) counters loaded from the maps flow only into comparisons, copies and the single +1 of Increment; (R4) that +1 is dominated by the strict test counter < K where K is the bound above which the reader rejects counters, so a successful Increment never produces a vector that cannot be read back. " +
+			"(R5) in Merge, an entry of the other operand that is absent from the result is stored on every path of its iteration (no skip), so the result is an upper bound of both; (R6) the key under which ReadVersionVector stores a counter is the decoded string itself, not a transformation of it — the operations and the writer treat node ids as opaque, so a normalising reader breaks Write∘Read = id and can collapse two entries. " +
 			"NOT decided, stated plainly: reflexivity / antisymmetry / transitivity of Compare, commutativity / associativity / idempotence / leastness of Merge, strictness of Increment. These are arithmetic facts over all inputs; deciding them needs execution or a solver, both outside this technique. A mutation of Compare or Merge that keeps R1–R2 intact is NOT detected by this check.",
 		Rules: []Rule{
 			{ID: "C16.R1", Min: 6, Desc: "operands are never modified (ownership of the map)", Fn: c16Ownership},
 			{ID: "C16.R2", Min: 2, Desc: "serialisation symmetry and common cap", Fn: c16Wire},
 			{ID: "C16.R3", Min: 1, Desc: "data independence of counters (informational)", Fn: c16DataIndependence},
+			{ID: "C16.R5", Min: 1, Desc: "the join keeps every entry of both operands", Fn: c16MergeKeepsAll},
+			{ID: "C16.R6", Min: 1, Desc: "the reader stores node ids verbatim", Fn: c16VerbatimKeys},
 			{ID: "C16.R4", Min: 1, Desc: "Increment stays within the reader's counter bound", Fn: c16IncrementCap},
 		},
 	})
@@ -40,16 +43,19 @@ func init() {
 			{ID: "C17.R5", Min: 2, Desc: "vector only joins / prunes", Fn: c17VectorAssign},
 			{ID: "C17.R6", Min: 3, Desc: "changed flag is sound", Fn: c17Changed},
 			{ID: "C17.R7", Min: 2, Desc: "incarnation order: generation decides first", Fn: c17Generation},
+			{ID: "C17.R9", Min: 1, Desc: "vector compaction keeps the component of every member still in the table", Fn: c17PruneKeepsMembers},
 			{ID: "C17.R8", Min: 2, Desc: "vector order does not short-circuit the member comparison or the join", Fn: c17NoShortcut},
 		},
 	})
 	register(&Property{
 		ID: "C18",
 		Explanation: "Convergence, exact membership and stability quantify over fault sequences, delivery orders and timer phases of a distributed run; no static argument in reach bounds them and they are NOT decided. One structural necessary condition is decided: (R1) the leader is a deterministic function of the membership view — the leader computation reaches no nondeterminism source (random numbers, clocks, package-level mutable state), reads only member address and status, sorts (or min-reduces) what it collects from the map before indexing it, and the publisher derives IAmLeader from that value only. " +
-			"(R2) the gossip suppression predicate answers 'send' whenever the peer's vector is unknown or the own vector is After / Concurrent with respect to it, and 'skip' only when it is Before or Equal (truth table of the predicate over its atoms). (R3) the generation bump of a re-joining node reads the previous incarnation from the seed's reply (directly, or from the own view after merging the reply). Any other mutation in join, target selection or failure detection is NOT detected.",
+			"(R2) the gossip suppression predicate answers 'send' whenever the peer's vector is unknown or the own vector is After / Concurrent with respect to it, and 'skip' only when it is Before or Equal (truth table of the predicate over its atoms). (R3) the generation bump of a re-joining node reads the previous incarnation from the seed's reply (directly, or from the own view after merging the reply). (R4) the leader publisher computes the leader on every call (only nil-context / nil-view / nil-stream edges return before it): views change without the version vector moving (a suspected member revived by gossip), so caching on the vector leaves two self-proclaimed leaders; (R5) the target selector ranges over the configured seed list itself on every path — never over a value that some path replaced by a constant: gossip to non-member seeds is the only way two disjoint islands find each other. Any other mutation in join, target selection or failure detection is NOT detected.",
 		Rules: []Rule{
 			{ID: "C18.R1", Min: 4, Desc: "leader is a deterministic function of the view", Fn: c18Leader},
 			{ID: "C18.R2", Min: 6, Desc: "gossip is suppressed only towards peers known to be at least as new", Fn: c18Suppression},
+			{ID: "C18.R4", Min: 1, Desc: "the leader is re-evaluated on every call of the publisher", Fn: c18AlwaysEvaluates},
+			{ID: "C18.R5", Min: 1, Desc: "configured seeds stay gossip candidates whatever the view holds", Fn: c18SeedsAlwaysCandidates},
 			{ID: "C18.R3", Min: 1, Desc: "restart generation decided against the merged reply", Fn: c18RestartGeneration},
 		},
 	})
@@ -1244,4 +1250,329 @@ func c18Suppression(p *Program, r *Report) {
 			}
 		}
 	}
+}
+
+// ---- round-2 rules ---------------------------------------------------------------------------
+
+func c16MergeKeepsAll(p *Program, r *Report) {
+	vv := p.Named("internal/cluster", "VersionVector")
+	if vv == nil {
+		r.Unresolved("VersionVector")
+		return
+	}
+	fn := p.methodNamed(vv, "Merge")
+	if fn == nil || len(fn.Params) < 2 {
+		r.Unresolved("VersionVector.Merge")
+		return
+	}
+	g := p.ig(fn)
+	n := 0
+	for _, in := range g.Nodes {
+		lk, ok := in.(*ssa.Lookup)
+		if !ok || !lk.CommaOk {
+			continue
+		}
+		// lookup in the result map (a fresh map), with a key iterated from the other operand
+		if !anyContains(p.origins(lk.Index), "next<-range<-") {
+			continue
+		}
+		// the result map: the map this function also stores into (the operands' maps are never updated, C16.R1)
+		lf, lb := fieldLoad(lk.X)
+		isResult := false
+		for _, in2 := range g.Nodes {
+			if mu, isMU := in2.(*ssa.MapUpdate); isMU {
+				if mu.Map == lk.X {
+					isResult = true
+				}
+				if mf, mb := fieldLoad(mu.Map); lf != nil && mf == lf && strip(mb) == strip(lb) {
+					isResult = true
+				}
+			}
+		}
+		if !isResult {
+			continue
+		}
+		_, missing := g.okEdgesLookup(lk)
+		if len(missing) == 0 {
+			continue
+		}
+		n++
+		stores := nodesWhere(g, func(in2 ssa.Instruction) bool {
+			mu, isMU := in2.(*ssa.MapUpdate)
+			return isMU && sameValue(mu.Key, lk.Index)
+		})
+		li := g.Idx[lk]
+		ok2 := len(stores) > 0
+		for e := range missing {
+			if stores[e.to] {
+				continue
+			}
+			reach := g.Reach([]int{e.to}, stores, nil)
+			if reach[li] || anyIn(reach, g.Exits) {
+				ok2 = false
+			}
+		}
+		r.Check(ok2, "merge stores an entry the result lacks", lk.Pos(), "from the not-found edge of the lookup in the result every path stores that key before the next iteration or the return: the join never drops a node that only one operand has")
+	}
+	if n == 0 {
+		r.Unresolved("lookup of an iterated key in the result map of Merge")
+	}
+}
+
+func c16VerbatimKeys(p *Program, r *Report) {
+	rd := p.Func("internal/cluster", "ReadVersionVector")
+	if rd == nil {
+		r.Unresolved("ReadVersionVector")
+		return
+	}
+	n := 0
+	for _, b := range rd.Blocks {
+		for _, in := range b.Instrs {
+			mu, ok := in.(*ssa.MapUpdate)
+			if !ok {
+				continue
+			}
+			if b, isB := mu.Key.Type().Underlying().(*types.Basic); !isB || b.Kind() != types.String {
+				continue
+			}
+			n++
+			o := p.origins(mu.Key)
+			good := len(o) > 0
+			for _, ch := range o {
+				// the first producer on the chain must be a Reader read (possibly through a local cell)
+				head := ch
+				if i := strings.Index(ch, "<-"); i >= 0 {
+					head = ch[:i]
+				}
+				head = strings.TrimPrefix(head, "#0")
+				if strings.HasPrefix(ch, "#0<-call:") {
+					head = ch[len("#0<-"):]
+					if i := strings.Index(head, "<-"); i >= 0 {
+						head = head[:i]
+					}
+				}
+				if !(strings.Contains(head, "Reader).Read") || strings.HasPrefix(ch, "alloc:")) {
+					good = false
+				}
+			}
+			r.Check(good, "node id stored by the reader", mu.Pos(), "the map key is the string returned by the Reader (chains: "+strings.Join(o, " | ")+"): no normalisation between decoding and storing")
+		}
+	}
+	if n == 0 {
+		r.Unresolved("string-keyed map update in ReadVersionVector")
+	}
+}
+
+func c17PruneKeepsMembers(p *Program, r *Report) {
+	vr := p.viewRoles()
+	if vr == nil {
+		r.Unresolved("cluster view roles")
+		return
+	}
+	n := 0
+	for _, fn := range p.methodsOf(vr.View) {
+		g := p.ig(fn)
+		for _, in := range g.Nodes {
+			c := callOf(in)
+			if c == nil || c.StaticCallee() == nil || !strings.HasPrefix(c.StaticCallee().Name(), "Prune") || len(c.Args) < 2 {
+				continue
+			}
+			if _, isCall := in.(*ssa.Call); !isCall {
+				continue
+			}
+			n++
+			// the appends that build the list of ids to keep: append(list, <range key of the member table>)
+			apps := nodesWhere(g, func(in2 ssa.Instruction) bool {
+				cc, ok := in2.(*ssa.Call)
+				if !ok {
+					return false
+				}
+				b, isB := cc.Call.Value.(*ssa.Builtin)
+				if !isB || b.Name() != "append" || len(cc.Call.Args) < 2 {
+					return false
+				}
+				elems, okv := varargElems(cc.Call.Args[1])
+				if !okv || len(elems) != 1 {
+					return false
+				}
+				return anyContains(p.origins(elems[0]), "next<-range<-field:"+vr.View.Obj().Name()+"."+vr.Members.Name())
+			})
+			nilMember := g.edgesWhere(func(f cmpFact) bool {
+				return f.IsNil && f.Op == token.EQL && anyContains(p.origins(f.X), "next<-range<-field:"+vr.View.Obj().Name()+"."+vr.Members.Name())
+			})
+			ok, why := g.loopExactlyOnceA(apps, nilMember)
+			r.Check(ok, "ids kept by the compaction in "+fnName(fn), in.Pos(), "the list handed to the pruning is appended the id of every non-nil member of the table, once per iteration: the vector keeps a component for every member still present whatever its status "+why)
+		}
+	}
+	if n == 0 {
+		r.Unresolved("pruning of the version vector in the view's methods")
+	}
+}
+
+func c18AlwaysEvaluates(p *Program, r *Report) {
+	compute := p.Func("internal/cluster", "ComputeLeaderAddr")
+	if compute == nil {
+		r.Unresolved("ComputeLeaderAddr")
+		return
+	}
+	n := 0
+	for _, fn := range p.Mod {
+		pk := fnPkg(fn)
+		if pk == nil || !strings.HasSuffix(pk.Path(), "/internal/cluster") || len(fn.Blocks) == 0 || fn.Signature.Recv() == nil {
+			continue
+		}
+		g := p.ig(fn)
+		calls := nodesWhere(g, func(in ssa.Instruction) bool { c := callOf(in); return c != nil && c.StaticCallee() == compute })
+		if len(calls) == 0 {
+			continue
+		}
+		// only the publisher: a function that also publishes the leader event
+		pub := false
+		for _, in := range g.Nodes {
+			if c := callOf(in); c != nil && c.IsInvoke() && c.Method.Name() == "Publish" && len(c.Args) > 1 && strings.HasSuffix(typeName(strip(c.Args[1]).Type()), "ClusterLeaderChangedEvent") {
+				pub = true
+			}
+		}
+		if !pub {
+			continue
+		}
+		n++
+		nilE := g.edgesWhere(func(f cmpFact) bool {
+			if !f.IsNil || f.Op != token.EQL {
+				return false
+			}
+			x := strip(f.X)
+			if _, isP := x.(*ssa.Parameter); isP {
+				return true
+			}
+			if c, isC := x.(*ssa.Call); isC && c.Call.IsInvoke() {
+				return true // e.g. ctx.EventStream() == nil
+			}
+			return false
+		})
+		r.Check(!anyIn(g.Reach(g.entry(), calls, nilE), g.Exits), "leader evaluated on every call of "+fnName(fn), firstPos(g, calls), "no return is reachable before the leader computation except on nil-argument edges: the evaluation is never skipped on the grounds that some summary of the view (its version vector) did not change")
+	}
+	if n == 0 {
+		r.Unresolved("leader publisher (calls ComputeLeaderAddr and publishes ClusterLeaderChangedEvent)")
+	}
+}
+
+func c18SeedsAlwaysCandidates(p *Program, r *Report) {
+	sel := p.Named("internal/cluster", "GossipTargetSelector")
+	if sel == nil {
+		r.Unresolved("GossipTargetSelector")
+		return
+	}
+	fn := p.methodNamed(sel, "SelectTargets")
+	if fn == nil {
+		r.Unresolved("SelectTargets")
+		return
+	}
+	g := p.ig(fn)
+	// the seed source: a call of a method of the selector whose first result is []string
+	var src []*ssa.Call
+	for _, in := range g.Nodes {
+		c, ok := in.(*ssa.Call)
+		if !ok || c.Call.IsInvoke() {
+			continue
+		}
+		var res *types.Tuple
+		if y := c.Call.StaticCallee(); y != nil {
+			if y.Signature.Recv() == nil || namedOf(y.Signature.Recv().Type()) != sel {
+				continue
+			}
+			res = y.Signature.Results()
+		} else {
+			// a function-typed field of the selector (injected seed provider)
+			f, _ := fieldLoad(c.Call.Value)
+			if f == nil || fieldVar(sel, f.Name()) != f {
+				continue
+			}
+			sig, isSig := f.Type().Underlying().(*types.Signature)
+			if !isSig {
+				continue
+			}
+			res = sig.Results()
+		}
+		if res.Len() >= 1 && isStringSlice(res.At(0).Type()) {
+			src = append(src, c)
+		}
+	}
+	if len(src) == 0 {
+		r.Unresolved("seed source of the target selector")
+		return
+	}
+	n := 0
+	okAll := true
+	var bad token.Pos
+	for _, in := range g.Nodes {
+		// `for _, s := range seeds` over a slice compiles to len(seeds) + index loop: look at len()/index uses too
+		var x ssa.Value
+		switch y := in.(type) {
+		case *ssa.Range:
+			x = y.X
+		case *ssa.Call:
+			if b, isB := y.Call.Value.(*ssa.Builtin); isB && b.Name() == "len" {
+				x = y.Call.Args[0]
+			}
+		case *ssa.IndexAddr:
+			x = y.X
+		}
+		if x == nil || !isStringSlice(x.Type()) {
+			continue
+		}
+		// does this value come from the seed source at all?
+		fromSeeds, pure := false, true
+		seen := map[ssa.Value]bool{}
+		var walk func(v ssa.Value)
+		walk = func(v ssa.Value) {
+			if seen[v] {
+				return
+			}
+			seen[v] = true
+			switch z := v.(type) {
+			case *ssa.Extract:
+				for _, sc := range src {
+					if z.Tuple == ssa.Value(sc) && z.Index == 0 {
+						fromSeeds = true
+						return
+					}
+				}
+				pure = false
+			case *ssa.Phi:
+				for _, e := range z.Edges {
+					walk(e)
+				}
+			default:
+				pure = false
+			}
+		}
+		walk(x)
+		if !fromSeeds {
+			continue
+		}
+		n++
+		if !pure {
+			okAll = false
+			bad = in.Pos()
+		}
+	}
+	if n == 0 {
+		r.Unresolved("loop over the seed list in SelectTargets")
+		return
+	}
+	if bad == token.NoPos {
+		bad = fn.Pos()
+	}
+	r.Check(okAll, "seed loops range over the configured seed list", bad, fmt.Sprintf("all %d uses of the seed list in loops take the value returned by the seed source on every path (no path substitutes nil / another list)", n))
+}
+
+
+func isStringSlice(t types.Type) bool {
+	sl, ok := t.Underlying().(*types.Slice)
+	if !ok {
+		return false
+	}
+	b, ok := sl.Elem().Underlying().(*types.Basic)
+	return ok && b.Kind() == types.String
 }
